@@ -97,8 +97,11 @@ pub fn gen_conc(property: &str, profile: &str, seed: u64) -> Plan {
         }
         sessions.push(s);
     }
-    // sequential tail: restart, full comparison, a few operations
+    // sequential tail: restart, full comparison, a few operations, then a restart with index files
+    // removed (the regenerated index must agree with the one built while the clients ran)
     let mut ops = Vec::new();
+    let uid = sw.uid();
+    ops.push(Op { uid, think_ms: 0, kind: OpKind::Restart { lazy: sw.rng.chance(1, 2), damage: vec![AtRest::IndexRemove { blob: sw.rng.below(8) as usize }, AtRest::IndexRemove { blob: sw.rng.below(8) as usize }] } });
     for _ in 0..sw.rng.range(1, 4) {
         ops.push(gen_op(&mut sw, &MIX_DATA_NO_RESTART, plan.store.key_len));
     }
